@@ -22,7 +22,8 @@ class CursFeatureWriter(BaseFeatureWriter):
     def _getCursiveAnchorPairs(glyphs):
         anchors = set()
         for _, glyph in glyphs:
-            anchors.update(a.name for a in glyph.anchors)
+            # anchors without a name cannot take part in cursive attachment
+            anchors.update(a.name for a in glyph.anchors if a.name)
 
         anchorPairs = []
         if "entry" in anchors and "exit" in anchors:
